@@ -55,6 +55,5 @@ func C03(r *report.Report, tier string) {
 		s.Outcomes = map[string]int64{"(distinct outcomes)": int64(len(s.Outcomes))}
 	}
 	r.Extra["harnesses"] = sums
-	r.Add("states", int64(r.NDistinct()))
 	r.Extra["bounds"] = map[string]int{"deviations": bound}
 }
